@@ -280,3 +280,11 @@ class WebSocketWriter:
             await self.send_frame(
                 PACK_CLOSE_CODE(code) + message, opcode=WSMsgType.CLOSE
             )
+
+    async def flush(self) -> None:
+        """Wait until the transport has handed all written frames to the socket."""
+        if self.transport.get_write_buffer_size():
+            # With a zero high-water mark the transport resumes the protocol
+            # only when its write buffer is empty.
+            self.transport.set_write_buffer_limits(high=0)
+            await self.protocol._drain_helper()
